@@ -1,6 +1,7 @@
 package chainsim
 
 import (
+	"github.com/decred/dcrd/dcrec/secp256k1/v4"
 	"fmt"
 	"time"
 
@@ -55,7 +56,7 @@ type DKGActor struct {
 func (a *DKGActor) OnBlock(e *Env, blk *world.BlockRecord) {}
 
 var dkgDeviations = []string{"r1_bad_a0sig", "r1_wrong_len_commits", "r1_other_member_id", "r2_corrupt_share", "r2_wrong_count", "r2_share_for_other",
-	"r3_false_complaint", "r3_bad_keysym", "r3_bad_confirm_sig", "dup_r1", "dup_r2", "r3_complain_self", "dup_r3", "r3_forged_complainant"}
+	"r3_false_complaint", "r3_bad_keysym", "r3_bad_confirm_sig", "dup_r1", "dup_r2", "r3_complain_self", "dup_r3", "r3_forged_complainant", "r3_false_complaint_noncanonical_keysym"}
 
 func (a *DKGActor) state(e *Env, gid uint64, m *TSSMember, mid uint64, size uint64) *dkgState {
 	if a.States == nil {
@@ -303,6 +304,18 @@ func (a *DKGActor) round3(e *Env, m *TSSMember, st *dkgState, g tsstypes.Group) 
 		}
 		// ... and then the member's own honest round-3 message follows below
 	}
+	if st.Deviation == "r3_false_complaint_noncanonical_keysym" && st.Target != 0 && len(complaints) == 0 {
+		// a FALSE complaint (the dealer's share is correct) whose proof is valid for the true symmetric key, but the key is sent in
+		// its 65-byte uncompressed encoding - the same curve point, different bytes
+		r1me, err1 := groupRes.GetRound1Info(tss.MemberID(st.MemberID))
+		r1other, err2 := groupRes.GetRound1Info(tss.MemberID(st.Target))
+		if err1 == nil && err2 == nil {
+			if cs, ok := complaintWithUncompressedKeySym(r1me.OneTimePubKey, r1other.OneTimePubKey, dkg.OneTimePrivKey, st.MemberID, st.Target); ok {
+				e.Submit(m.Acc, "dkg_complain", &dkgMeta{Member: m, State: st, Round: 3, Kind: st.Deviation, Complaints: cs}, tsstypes.NewMsgComplain(g.ID, cs, addr))
+				return
+			}
+		}
+	}
 	switch st.Deviation {
 	case "r3_false_complaint", "r3_bad_keysym", "r3_complain_self":
 		if st.Target != 0 && len(complaints) == 0 {
@@ -446,4 +459,42 @@ func (t *TransitionDriver) Act(e *Env) {
 	msg := bandtsstypes.NewMsgTransitionGroup(addrs, thr, exec, govAuthority)
 	t.pending = gov.Propose(e, "transition", &transMeta{Msg: msg, Members: ms, ExecTime: exec}, msg)
 	t.Started++
+}
+
+// complaintWithUncompressedKeySym builds a complaint of member `me` against `other` with a valid discrete-log-equality proof for
+// the true symmetric key, carried in uncompressed form (the proof's challenge is computed over those bytes).
+func complaintWithUncompressedKeySym(pubMe, pubOther tss.Point, privMe tss.Scalar, me, other uint64) ([]tsstypes.Complaint, bool) {
+	keySym, err := tss.ComputeSecretSym(privMe, pubOther)
+	if err != nil {
+		return nil, false
+	}
+	pk, err := secp256k1.ParsePubKey(keySym)
+	if err != nil {
+		return nil, false
+	}
+	keySymU := tss.Point(pk.SerializeUncompressed())
+	for i := 0; i < 8; i++ {
+		nonce, pubNonce, err := tss.GenerateDKGNonce()
+		if err != nil {
+			return nil, false
+		}
+		nonceSym, err := tss.ComputeSecretSym(nonce, pubOther)
+		if err != nil {
+			return nil, false
+		}
+		challenge, err := tss.HashRound3Complain(pubNonce, nonceSym, pubMe, pubOther, keySymU)
+		if err != nil {
+			continue
+		}
+		sig, err := tss.Sign(privMe, challenge, nonce, nil)
+		if err != nil {
+			return nil, false
+		}
+		cs, err := tss.NewComplaintSignatureFromComponents(sig.R(), nonceSym, sig.S())
+		if err != nil {
+			return nil, false
+		}
+		return []tsstypes.Complaint{{Complainant: tss.MemberID(me), Respondent: tss.MemberID(other), KeySym: keySymU, Signature: cs}}, true
+	}
+	return nil, false
 }
